@@ -126,7 +126,9 @@ pub fn record(args: &[String]) {
         let steps = if c < 3 { steps_long } else { steps_short };
         let np = 1 + (splitmix(&mut s) % 4) as usize + if c == 1 { 4 } else { 0 };
         let stick = [2u64, 5, 20, 1][(c % 4) as usize]; // how often the state stays (rejections)
-        let x0: Vec<i64> = (0..np).map(|_| (splitmix(&mut s) % 8) as i64).collect();
+        // the initial state is NOT a fed draw: every third chain starts far away from everything it is fed afterwards
+        let far = if c % 3 == 2 { 3000 + 500 * c as i64 } else { 0 };
+        let x0: Vec<i64> = (0..np).map(|_| (splitmix(&mut s) % 8) as i64 + far).collect();
         out.push(&json!({"e": "new", "P": np, "x0": x0, "ty": (["f64", "i32", "f32", "usize"][(c % 4) as usize])}));
         let mut cur = x0.clone();
         macro_rules! run {
@@ -134,7 +136,13 @@ pub fn record(args: &[String]) {
                 let init: Vec<$t> = x0.iter().map(|v| *v as $t).collect();
                 let mut tr = ChainTracker::new(np, &init);
                 for _ in 0..steps {
-                    if splitmix(&mut s) % stick == 0 || stick == 1 {
+                    if splitmix(&mut s) % stick == 0 || stick == 1 || cur.iter().any(|v| *v > 7) {
+                        if cur.iter().any(|v| *v > 7) {
+                            // leave the far start: from now on the chain lives in 0..7
+                            for v in cur.iter_mut() {
+                                *v = (splitmix(&mut s) % 8) as i64;
+                            }
+                        }
                         // propose a change in a random coordinate (may coincide with the old value)
                         let k = (splitmix(&mut s) % np as u64) as usize;
                         cur[k] = (splitmix(&mut s) % 8) as i64;
